@@ -519,10 +519,10 @@ def run(c):
     c.prove()
     stream_tree_malformed(c)
     stream_int16(c)
-    stream_flat(c, c.n(40, 400))
-    stream_tree(c, c.n(100, 1500), rational=True)
-    stream_tree(c, c.n(60, 1000), rational=False)
-    stream_isolation(c, c.n(60, 600))
+    stream_flat(c, c.n(40, 600))
+    stream_tree(c, c.n(100, 2500), rational=True)
+    stream_tree(c, c.n(60, 1500), rational=False)
+    stream_isolation(c, c.n(60, 1000))
     c.exhaustive = False
     c.notes.append(
         "tree/flat streams compare the real control_tree_branches and state_vector() index sets with the Lean "
